@@ -3,7 +3,7 @@
 # does not report it, against the related checks listed in EXTRA) on a scratch copy of /repo/src; writes detected_by into
 # seeded/<id>/meta.json and prints one line per seed.  Never touches /repo.
 cd /verif
-declare -A EXTRA=( [C01]="C04 C36" [C18]="C16 C19" [C02]="C35 C04" [C29]="C24" [C07]="C08" )
+declare -A EXTRA=( [C01]="C03 C04 C36" [C18]="C16 C19" [C02]="C35 C04" [C29]="C24" [C07]="C08" )
 one() {
   s=$1; p=${s%-*}
   for c in $p ${EXTRA[$p]}; do
